@@ -265,6 +265,9 @@ type history struct {
 	nLint  int
 	// statusOnly: details digests are blanked when writing (properties that speak about status alone)
 	statusOnly bool
+	// fresh: every run lints a freshly parsed copy of the object, so that a run cannot hand a modified object to the next one
+	// (C07: what other lints did to the object must show as a difference between registries, not be shared by both)
+	fresh bool
 }
 
 func newHistory(objs []*Target) *history {
@@ -310,6 +313,22 @@ func (h *history) lintTarget(oi int, t *Target, ri int, tag string, snap bool) {
 	var before string
 	if snap {
 		before = t.snapshot()
+	}
+	if h.fresh && t.DER != nil {
+		switch t.Kind {
+		case "cert":
+			if c, ok, _ := corpus.ParseCert(t.DER); ok {
+				t = &Target{Kind: t.Kind, ID: t.ID, DER: t.DER, Cert: c}
+			}
+		case "crl":
+			if c, ok, _ := corpus.ParseCRL(t.DER); ok {
+				t = &Target{Kind: t.Kind, ID: t.ID, DER: t.DER, CRL: c}
+			}
+		default:
+			if c, ok, _ := corpus.ParseOCSP(t.DER); ok {
+				t = &Target{Kind: t.Kind, ID: t.ID, DER: t.DER, OCSP: c}
+			}
+		}
 	}
 	rs, esc, hung := runSet(t, hr.reg)
 	h.nLint++
@@ -437,7 +456,8 @@ func cmdHistory(args []string) {
 	sum := ev.M{}
 
 	if phases["filter"] {
-		// ---- C07: filtered registries vs the full one, in both orders
+		// ---- C07: filtered registries vs the full one, in both orders, every run on a freshly parsed copy
+		h.fresh = true
 		var fam []int
 		srcs := h.g.Sources()
 		sort.Sort(srcs)
@@ -499,7 +519,42 @@ func cmdHistory(args []string) {
 				h.lint(oi, 0, "full-last", false)
 			}
 		}
+		// the same under non-default configurations: a filtered registry inherits the configuration of the registry it was
+		// made from, so full and filtered runs still agree (the memo key holds what the configuration says to the lint)
+		seenLint := map[string]bool{}
+		for _, id := range h.cat.ids {
+			if !strings.HasPrefix(id, "val:") {
+				continue
+			}
+			name := strings.Split(id, ":")[1]
+			if seenLint[name] {
+				continue
+			}
+			seenLint[name] = true
+			h.setCfg(0, id)
+			kids := []int{h.filter(0, "cfg-single:"+name, lint.FilterOptions{IncludeNames: []string{name}}),
+				h.filter(0, "cfg-re", lint.FilterOptions{NameFilter: regexp.MustCompile("^[ewn]_")}),
+				h.filter(0, "cfg-exc", lint.FilterOptions{ExcludeSources: lint.SourceList{lint.RFC5891}})}
+			for oi := range objs {
+				if only == "" && oi%3 != int(seed)%3 && !strings.HasPrefix(objs[oi].ID, "forged:") {
+					continue
+				}
+				if oi%2 == 0 {
+					h.lint(oi, 0, "cfg-full-first", false)
+				}
+				for _, k := range kids {
+					if k > 0 {
+						h.lint(oi, k, "cfg-filtered", false)
+					}
+				}
+				if oi%2 == 1 {
+					h.lint(oi, 0, "cfg-full-last", false)
+				}
+			}
+			h.setCfg(0, "empty")
+		}
 		sum["filtered_registries"] = len(h.regs) - 1
+		h.fresh = false
 	}
 
 	if phases["repeat"] {
